@@ -27,6 +27,7 @@ use serde_json::json;
 // =============================================================================================
 pub fn c03(ctx: &mut Ctx) {
     let q = ctx.quick();
+    crate::props::volume_stress(ctx);
     ctx.phase(0.35);
     wdec(ctx, DecPlan {
         fixed_bases: if q { 32 } else { 96 },
@@ -1592,6 +1593,42 @@ pub fn c16(ctx: &mut Ctx) {
         }
         if format!("{a}") != format!("0x{}..{}", &hexs[..4], &hexs[60..]) {
             viol(ctx, "display-form", "", format!("{a}"), inp.clone());
+        }
+        // the same under formatter flags and inside other values' Debug output (pretty printing passes `#` down)
+        if format!("{a:#?}") != format!("0x{hexs}") {
+            viol(ctx, "debug-form", "alternate-flag", format!("{a:#?}"), inp.clone());
+        }
+        if format!("{a:#}") != format!("{a}") {
+            viol(ctx, "display-form", "alternate-flag", format!("{a:#}"), inp.clone());
+        }
+        for nested in [format!("{:#?}", Some(a)), format!("{:#?}", vec![a]), format!("{:?}", (a, 1u8))] {
+            if nested.matches("0x").count() != 1 || !nested.contains(&format!("0x{hexs}")) {
+                viol(ctx, "debug-form", "nested", nested.clone(), inp.clone());
+            }
+        }
+        // NodeId == [u8; 32] for arrays that differ in several places, also with differences that cancel under xor
+        {
+            let mut two = raw;
+            two[3] ^= 0x5a;
+            two[17] ^= 0x5a;
+            let mut swapped = raw;
+            swapped.swap(0, 31);
+            let mut inv = raw;
+            inv.iter_mut().for_each(|b| *b ^= 0xff);
+            let mut pairwise = raw;
+            for k in (0..32).step_by(2) {
+                pairwise[k] ^= 0x11;
+                pairwise[k + 1] ^= 0x11;
+            }
+            ctx.count("nodeid.raw-eq-cases");
+            for (cls, other) in [("two-bytes-same-mask", two), ("first-last-swapped", swapped), ("all-inverted", inv), ("pairwise-same-mask", pairwise)] {
+                if other != raw && (a == other || NodeId::new(&other) == a) {
+                    viol(ctx, "id-equals-other-bytes", cls, hex(&other), inp.clone());
+                }
+            }
+            if !(a == raw) {
+                viol(ctx, "id-differs-from-own-bytes", "", "".into(), inp.clone());
+            }
         }
         // deserialisation: accepted forms
         let upper = hexs.to_uppercase();
